@@ -36,6 +36,16 @@ fn pauser(point: &'static str, _token: u64) {
     }
 }
 
+/// A connected TCP pair over loopback (sender, receiver).
+fn tcp_pair() -> (libc::c_int, libc::c_int) {
+    use std::os::fd::IntoRawFd;
+    let l = std::net::TcpListener::bind("127.0.0.1:0").expect("bind");
+    let c = std::net::TcpStream::connect(l.local_addr().expect("addr")).expect("connect");
+    let (a, _) = l.accept().expect("accept");
+    let _ = c.set_nodelay(true);
+    (c.into_raw_fd(), a.into_raw_fd())
+}
+
 /// One caller's program: every op checks its own result; returns the list of problems found.
 fn caller(id: usize, ops: usize, seed: u64, dir: &str, log: &Mutex<Vec<String>>, done_ops: &AtomicUsize, timeout_first: bool) {
     let mut rng = Rng::for_case(seed, id as u64);
@@ -64,7 +74,7 @@ fn caller(id: usize, ops: usize, seed: u64, dir: &str, log: &Mutex<Vec<String>>,
     let problem = |s: String| { if std::env::var_os("VERBOSE_PANICS").is_some() { eprintln!("caller {id}: {s}"); } log.lock().unwrap().push(format!("caller {id}: {s}")) };
     for k in 0..ops {
         let tag = ((id as u64) << 32) | k as u64;
-        match if rng.chance(1, 16) { 8 } else { rng.below(8) } {
+        match if rng.chance(1, 16) { 8 } else if rng.chance(1, 12) { 9 } else if rng.chance(1, 10) { 10 } else { rng.below(8) } {
             0 | 1 => {
                 // unique block written at a unique offset, read back
                 let off = (k * 64) as libc::off_t;
@@ -150,6 +160,115 @@ fn caller(id: usize, ops: usize, seed: u64, dir: &str, log: &Mutex<Vec<String>>,
                 }
                 let tv = libc::timeval { tv_sec: 0, tv_usec: 0 };
                 let _ = oc::setsockopt(None, sv[0], libc::SOL_SOCKET, libc::SO_SNDTIMEO, (&raw const tv).cast(), std::mem::size_of::<libc::timeval>() as libc::socklen_t);
+            }
+            9 => {
+                // the timeout of the *other* direction must not end a call: a write-type call on a full socket whose SO_RCVTIMEO is 100 ms,
+                // or a read-type call on an empty socket whose SO_SNDTIMEO is 100 ms; the peer acts after 300 ms
+                let mut p = [0; 2];
+                assert_eq!(0, unsafe { libc::socketpair(libc::AF_UNIX, libc::SOCK_STREAM, 0, p.as_mut_ptr()) });
+                let (me, peer) = (p[0], p[1]);
+                // (sendto is left out: it is submitted as a zero-copy send, which AF_UNIX sockets answer with EOPNOTSUPP - the call's own completion)
+                let call = *rng.pick(&["send", "sendmsg", "write", "writev", "recv", "recvmsg", "read", "readv"]);
+                let writing = matches!(call, "send" | "sendmsg" | "write" | "writev");
+                let tv = libc::timeval { tv_sec: 0, tv_usec: 100_000 };
+                let _ = oc::setsockopt(None, me, libc::SOL_SOCKET, if writing { libc::SO_RCVTIMEO } else { libc::SO_SNDTIMEO }, (&raw const tv).cast(), std::mem::size_of::<libc::timeval>() as libc::socklen_t);
+                if writing {
+                    unsafe {
+                        let fl = libc::fcntl(me, libc::F_GETFL);
+                        libc::fcntl(me, libc::F_SETFL, fl | libc::O_NONBLOCK);
+                        let junk = [3u8; 65536];
+                        while libc::write(me, junk.as_ptr().cast(), junk.len()) > 0 {}
+                        libc::fcntl(me, libc::F_SETFL, fl);
+                    }
+                }
+                let payload = tag.to_le_bytes();
+                drop(std::thread::spawn(move || {
+                    std::thread::sleep(Duration::from_millis(300));
+                    unsafe {
+                        if writing {
+                            // drain until the 8 payload bytes at the very end have arrived
+                            let mut sink = vec![0u8; 1 << 20];
+                            let t = Instant::now();
+                            libc::fcntl(peer, libc::F_SETFL, libc::fcntl(peer, libc::F_GETFL) | libc::O_NONBLOCK);
+                            while t.elapsed() < Duration::from_secs(2) {
+                                if libc::read(peer, sink.as_mut_ptr().cast(), sink.len()) <= 0 {
+                                    std::thread::sleep(Duration::from_millis(2));
+                                }
+                            }
+                        } else {
+                            libc::write(peer, payload.as_ptr().cast(), 8);
+                        }
+                    }
+                }));
+                let mut buf = payload;
+                let mut iov = libc::iovec { iov_base: buf.as_mut_ptr().cast(), iov_len: 8 };
+                let mut mh: libc::msghdr = unsafe { std::mem::zeroed() };
+                mh.msg_iov = &raw mut iov;
+                mh.msg_iovlen = 1;
+                oc::set_errno(0);
+                let t = Instant::now();
+                let r = match call {
+                    "send" => oc::send(None, me, buf.as_ptr().cast(), 8, 0),
+                    "sendmsg" => oc::sendmsg(None, me, &raw const mh, 0),
+                    "write" => oc::write(None, me, buf.as_ptr().cast(), 8),
+                    "writev" => oc::writev(None, me, &raw const iov, 1),
+                    "recv" => oc::recv(None, me, buf.as_mut_ptr().cast(), 8, 0),
+                    "recvmsg" => oc::recvmsg(None, me, &raw mut mh, 0),
+                    "read" => oc::read(None, me, buf.as_mut_ptr().cast(), 8),
+                    _ => oc::readv(None, me, &raw const iov, 1),
+                };
+                let e = errno();
+                let ms = t.elapsed().as_millis();
+                if r != 8 || (!writing && buf != payload) {
+                    problem(format!("op {k} {call} that has to wait 300 ms for its peer returned {r} errno {e} after {ms} ms (expected 8); the socket's {} is 100 ms, its {} is unlimited",
+                        if writing { "receive timeout" } else { "send timeout" }, if writing { "send timeout" } else { "receive timeout" }));
+                    // the abandoned request is still in flight and this caller's wait slot is taken: stop here
+                    done_ops.fetch_add(ops - k, Ordering::SeqCst);
+                    return;
+                }
+                // the descriptors stay open: the drainer thread may still be reading
+                let _ = (me, peer);
+            }
+            10 => {
+                // sendto over TCP (submitted as a zero-copy send, whose buffer-release notification is a second completion with the same
+                // user data), followed at once by a receive on another socket that has to wait 50 ms for its data: the receive must get
+                // its own 8 bytes, and the TCP peer must get the tag
+                let (tx, rx) = tcp_pair();
+                let msg = tag.to_le_bytes();
+                oc::set_errno(0);
+                let s = oc::sendto(None, tx, msg.as_ptr().cast(), 8, 0, std::ptr::null(), 0);
+                let se = errno();
+                let peer = sv[0];
+                let late = tag ^ 0xAAAA;
+                drop(std::thread::spawn(move || {
+                    std::thread::sleep(Duration::from_millis(50));
+                    unsafe { libc::write(peer, late.to_le_bytes().as_ptr().cast(), 8) }
+                }));
+                oc::set_errno(0);
+                let mut back = [0u8; 8];
+                let r = oc::recv(None, sv[1], back.as_mut_ptr().cast(), 8, 0);
+                let re = errno();
+                let mut got = [0u8; 8];
+                let n = unsafe {
+                    libc::fcntl(rx, libc::F_SETFL, libc::fcntl(rx, libc::F_GETFL) | libc::O_NONBLOCK);
+                    std::thread::sleep(Duration::from_millis(5));
+                    libc::read(rx, got.as_mut_ptr().cast(), 8)
+                };
+                unsafe {
+                    libc::close(tx);
+                    libc::close(rx);
+                }
+                if s != 8 || n != 8 || got != msg {
+                    problem(format!("op {k} sendto over TCP returned {s} errno {se}; the peer read {n} bytes {got:x?}, expected 8 bytes {msg:x?}"));
+                } else if r != 8 || back != late.to_le_bytes() {
+                    problem(format!("op {k} recv issued right after a sendto over TCP returned {r} errno {re} with {back:x?}, expected its own 8 bytes {:x?} that arrive 50 ms later (the second completion of the zero-copy send filled in this call)", late.to_le_bytes()));
+                    if r != 8 {
+                        // the late data is still to come: take it out so that later operations of this caller find the socket empty
+                        std::thread::sleep(Duration::from_millis(80));
+                        let mut junk = [0u8; 8];
+                        unsafe { libc::recv(sv[1], junk.as_mut_ptr().cast(), 8, libc::MSG_DONTWAIT) };
+                    }
+                }
             }
             6 => {
                 // negative completion compared with what the native call answers: mkdirat below /sys
